@@ -209,7 +209,7 @@ LEVEL_TEXT = (
 )
 TECHNIQUE = "Lean 4 proof (Cauchy-Schwarz box bound, product-of-ranges enumeration) + differential runs + brute-force image enumeration"
 GEN = ["localgrid", "periodicgrid_init"]
-LEAN_MODULES = ["GridVerif.Props.C11", "GridVerif.Props.C11.Gen", "GridVerif.Props.C11.Warn"]
+LEAN_MODULES = ["GridVerif.Props.C11", "GridVerif.Props.C11.Gen", "GridVerif.Props.C11.Warn", "GridVerif.Props.C11.Indep", "GridVerif.Props.C11.Handed"]
 THEOREMS = [
     "GridVerif.C11.ilc_in_box",
     "GridVerif.C11.periodic_complete",
@@ -258,6 +258,14 @@ THEOREMS = [
     "GridVerif.C11.gen_init_warning_spec",
     "GridVerif.C11.gen_wrap_never_warns",
     "GridVerif.C11.gen_nowarn_range_small",
+    # sixth round: which pairs are listed does not depend on the weights (stored change C11-i: hits with weight 0 dropped)
+    "GridVerif.C11.gen_pquery_closed",
+    "GridVerif.C11.gen_localgrid_pairs_independent_of_weights",
+    # sixth round: stored reciprocal vectors dual to the lattice for either handedness (stored change C11-h)
+    "GridVerif.C11.gen_init_recivecs_dual",
+    "GridVerif.C11.exL_left_handed",
+    "GridVerif.C11.exLDual",
+    "GridVerif.C11.gen_init_left_handed",
 ]
 RULE = (
     "one evaluation = one operation (constructor incl. wrapping, get_localgrid, points=, weights=, __getitem__) run on "
